@@ -309,7 +309,8 @@ def gen_case(rng):
     now = max(0, now)
     case = {'cfg': cfg, 'req': {'cookie': cookie, 'ip': ip, 'host': host, 'now': now, 'half': rng.random() < 0.25},
             'ops': gen_ops(rng),
-            'origin': origin, 'other_u': other_u, 'kind': kind, 'clock': clock, 'seam': rng.random() < 0.3}
+            'origin': origin, 'other_u': other_u, 'kind': kind, 'clock': clock, 'seam': rng.random() < 0.3,
+            'via_policy': rng.random() < 0.3}
     return case
 
 
